@@ -49,11 +49,23 @@ func NewRouter() *Router {
 // Index sets the handler function for handling the index page when hitting
 // this router, that is when hitting the root of it. One can only hit this
 // route node when the path is ended with a slash '/'.
-func (r *Router) Index(f Func) { r.index = f }
+func (r *Router) Index(f Func) {
+	if f == nil {
+		r.index = nil
+		return
+	}
+	r.index = f
+}
 
 // Default sets a default handler for handling routes that does
 // not hit anything in the routing tree.
-func (r *Router) Default(f Func) { r.miss = f }
+func (r *Router) Default(f Func) {
+	if f == nil {
+		r.miss = nil
+		return
+	}
+	r.miss = f
+}
 
 // MethodFile adds a routing file node into the routing tree that accepts
 // only the given method.
@@ -105,8 +117,17 @@ func (r *Router) DirService(p string, s Service) error {
 	return r.add(p, &routerNode{s: s, isDir: true})
 }
 
+// nilService tells if s is nil, or a nil Func wrapped into the interface.
+func nilService(s Service) bool {
+	if s == nil {
+		return true
+	}
+	f, ok := s.(Func)
+	return ok && f == nil
+}
+
 func (r *Router) add(p string, n *routerNode) error {
-	if n.s == nil {
+	if nilService(n.s) {
 		panic("function is nil")
 	}
 
